@@ -10,6 +10,7 @@ REG = {
     "C03": ("vf.checks.ode_props", "C03"), "C04": ("vf.checks.ode_props", "C04"),
     "C19": ("vf.checks.c19", "C19"),
     "C15": ("vf.checks.chx_props", "C15"),
+    "C07": ("vf.checks.chx_props", "C07"),
     "C09": ("vf.checks.c09", "C09"),
     "C08": ("vf.checks.chx_props", "C08"),
     "C14": ("vf.checks.c14", "C14"),
